@@ -40,7 +40,9 @@ EXPLANATION = ('Deductive (all inputs): Controller.set_index/set_name/modify_con
                'a name), SelectedExpressionsIterator / Expression.__iter__ (call k returns the expression configured with element k-1 of the set '
                'enumeration, StopIteration after the last); static: both helper generators build ONE controller and take controller names and member '
                'names from the same function of the same list / the same literals; Controller equality must be identity (new defect: two different '
-               'controllers with one name are merged by get_all_controllers).')
+               'controllers with one name are merged by get_all_controllers).  Round 3 (m3, mutation review): MultipleExpression.__init__ leaves the '
+               'Expression part initialised (empty children, no central controller / id manager); two_controllers returns normally only for a '
+               'direction of the compass rose; the refusal of INCOMPLETE configurations in set_configuration stays bounded (operator family).')
 LEVEL_TEXT = ('Mixed: deductive proof per function on the controller/configuration layer, AST-static obligations for the delegation '
               'layer, bounded native stand-ins (<= 3 controllers x <= 3 alternatives, sequences <= 20, identifiers <= 4 selections) '
               'for enumeration, iteration, identifiers and the helper generators.  Round 2: the constructors, get_configuration (count and '
